@@ -560,6 +560,13 @@ def model_strategy(max_n=30, builtins=True, runspecs=None, stock_builtins=True, 
             if builtins and stock_builtins and draw(st.integers(0, 3)) == 0:
                 extra = draw(builtin([a["name"] for a in aux], "stock"))
                 tree = ["bin", draw(st.sampled_from(["+", "-"])), tree, extra]
+            elif stock_builtins and draw(st.integers(0, 2)) == 0:
+                # plain DSL functions over elements directly in the stock equation: min/max/abs/If of converters, flows and stocks
+                names_ = [a["name"] for a in aux] + stock_names
+                el = st.sampled_from(names_).map(lambda nm: ["ref", nm])
+                two = st.tuples(st.sampled_from(["min", "max"]), el, el).map(lambda x: ["call", x[0], [x[1], x[2]]])
+                extra = draw(st.one_of(two, two, arith([a["name"] for a in aux], 2).filter(lambda x: bool(E.refs(x)))))
+                tree = ["bin", draw(st.sampled_from(["+", "-"])), tree, extra]
             init = draw(st.one_of(st.sampled_from([0.0, 1.0, 5.0, 10.0, 2.5, 100.0]),
                                   st.sampled_from([c["name"] for c in constants]).map(lambda nm: ["ref", nm])))
             stocks.append({"name": sn, "init": init, "eq": tree})
